@@ -859,8 +859,8 @@ func TestC07(t *testing.T) {
 	h.Probes()
 
 	// clients on goroutines of their own: composed/reading commands against writers, a witness in between
-	h.Rapid("concurrent", h.N(12, 400), func(rt *rapid.T) {
-		c := c07Concurrent{Rounds: rapid.SampledFrom([]int{20, 60, 200}).Draw(rt, "rounds"), Clients: rapid.IntRange(1, 3).Draw(rt, "clients")}
+	h.Rapid("concurrent", h.N(30, 600), func(rt *rapid.T) {
+		c := c07Concurrent{Rounds: rapid.SampledFrom([]int{60, 200, 500}).Draw(rt, "rounds"), Clients: rapid.IntRange(1, 3).Draw(rt, "clients")}
 		readers := [][]string{{"STRLEN", "str"}, {"SUBSTR", "str", "0", "1"}, {"HLEN", "hash"}, {"HKEYS", "hash"}, {"HVALS", "hash"}, {"HEXISTS", "hash", "f"}, {"HSTRLEN", "hash", "f"}, {"GETRANGE", "str", "0", "-1"},
 			{"MGET", "str", "num"}, {"KEYS", "*"}, {"SCAN", "0"}, {"LRANGE", "list", "0", "-1"}, {"SMEMBERS", "set"}, {"ZRANGE", "zset", "0", "-1"}, {"ZREVRANGE", "zset", "0", "-1"}, {"EXISTS", "str"}, {"TYPE", "str"}}
 		writers := [][]string{{"SET", "str", "abc"}, {"APPEND", "str", "x"}, {"HSET", "hash", "f", "v"}, {"INCR", "n"}, {"MSET", "a", "1", "b", "2"}, {"LPUSH", "list", "z"}, {"SADD", "set", "c"}, {"ZADD", "zset", "4", "d"}, {"DEL", "a"}, {"RENAME", "b", "c"}}
